@@ -1437,15 +1437,34 @@ Proof.
     eapply peq_trans; [eapply cut_pass_sound; eauto|]. apply combine_pass_sound; auto.
 Qed.
 
+(* terms with a vanishing prefactor do not change the Hamiltonian *)
+Lemma ham_denote_live : forall t H, peq (ham_denote t (live_terms H)) (ham_denote t H).
+Proof.
+  intros t H. induction H as [|tm H IH]; [apply peq_refl|]. unfold live_terms in *. cbn [filter].
+  destruct (nz_term tm) eqn:E; cbn [ham_denote map].
+  - change (term_poly t tm :: map (term_poly t) (filter nz_term H)) with ([term_poly t tm] ++ ham_denote t (filter nz_term H)).
+    change (term_poly t tm :: map (term_poly t) H) with ([term_poly t tm] ++ ham_denote t H).
+    apply peq_app; [apply peq_refl | exact IH].
+  - eapply peq_trans; [exact IH|]. apply peq_sym.
+    change (term_poly t tm :: map (term_poly t) H) with ([term_poly t tm] ++ ham_denote t H).
+    apply peq_app_nil_l. apply peq_zero_coeffs. intros a [Ea|[]]. subst a.
+    unfold nz_term in E. apply negb_false_iff in E. apply Qeq_bool_iff in E.
+    destruct tm as [[lam gam] f]. cbn [term_poly fst] in *. exact E.
+Qed.
+
 (* BIPARTITE from_hamiltonian is exact whenever the decidable step preconditions hold along the run *)
 Theorem pipeline_exact_checked : forall t H d, NoDup (ids t) ->
   pipeline_ok t H = true -> from_hamiltonian_bipartite t H = Some d ->
   peq (sd_denote t d) (ham_denote t H).
 Proof.
   intros t H d ND Hok E. unfold from_hamiltonian_bipartite, from_hamiltonian_bipartite_st in E.
-  destruct H as [|tm H]; [discriminate|].
-  destruct (run_levels t (levels t) (pipe_init t (tm :: H))) as [st'|] eqn:R; [|discriminate].
-  cbn [option_map] in E. inversion E; subst d.
-  eapply peq_trans; [eapply run_levels_sound; eauto|].
-  unfold pipe_init. cbn [p_sd]. apply base_exact_peq. exact ND.
+  unfold pipeline_ok, pipeline_checks in Hok.
+  destruct (live_terms H) as [|tm H'] eqn:EL.
+  - destruct H as [|tm0 H0]; [discriminate|]. cbn [option_map] in E. inversion E; subst d.
+    unfold pipe_init. cbn [p_sd]. apply base_exact_peq. exact ND.
+  - destruct (run_levels t (levels t) (pipe_init t (tm :: H'))) as [st'|] eqn:R; [|discriminate].
+    cbn [option_map] in E. inversion E; subst d.
+    eapply peq_trans; [eapply run_levels_sound; eauto|].
+    eapply peq_trans; [unfold pipe_init; cbn [p_sd]; apply base_exact_peq; exact ND|].
+    rewrite <- EL. apply ham_denote_live.
 Qed.
